@@ -4,6 +4,7 @@ import (
 	"fmt"
 	"math"
 	"math/rand"
+	"reflect"
 	"sort"
 	"strconv"
 	"strings"
@@ -198,9 +199,54 @@ func builtinJoin(i *Interpreter, args []Expr, env *Environment) (interface{}, er
 	}
 	strParts := make([]string, len(arr))
 	for idx, elem := range arr {
-		strParts[idx] = fmt.Sprintf("%v", elem)
+		str, err := formatValue(elem)
+		if err != nil {
+			return nil, fmt.Errorf("join(): %w", err)
+		}
+		strParts[idx] = str
 	}
 	return strings.Join(strParts, delim), nil
+}
+
+// formatValue renders a value the way fmt's %v does, but refuses an array or
+// object that contains itself (`$ o.a = o`): fmt would recurse on it until the
+// goroutine stack overflows, which ends the whole process.
+func formatValue(v interface{}) (string, error) {
+	if containsItself(v, map[uintptr]bool{}) {
+		return "", fmt.Errorf("cannot convert a value that contains itself to a string")
+	}
+	return fmt.Sprintf("%v", v), nil
+}
+
+// containsItself reports whether an array or object is reachable from itself.
+// onPath holds the arrays and objects between the root and v.
+func containsItself(v interface{}, onPath map[uintptr]bool) bool {
+	var children []interface{}
+	switch x := v.(type) {
+	case []interface{}:
+		if len(x) == 0 {
+			return false
+		}
+		children = x
+	case map[string]interface{}:
+		for _, child := range x {
+			children = append(children, child)
+		}
+	default:
+		return false
+	}
+	id := reflect.ValueOf(v).Pointer()
+	if onPath[id] {
+		return true
+	}
+	onPath[id] = true
+	defer delete(onPath, id)
+	for _, child := range children {
+		if containsItself(child, onPath) {
+			return true
+		}
+	}
+	return false
 }
 
 func builtinContains(i *Interpreter, args []Expr, env *Environment) (interface{}, error) {
@@ -492,7 +538,7 @@ func builtinToString(i *Interpreter, args []Expr, env *Environment) (interface{}
 	if err != nil {
 		return nil, err
 	}
-	return fmt.Sprintf("%v", arg), nil
+	return formatValue(arg)
 }
 
 func builtinAbs(i *Interpreter, args []Expr, env *Environment) (interface{}, error) {
